@@ -79,6 +79,10 @@ def pc_has(pc, pred):
 
 def place_name(m):
     r = q.root_place(m)
+    if r[0] == "ite":
+        a, b = place_name(r[2]), place_name(r[3])
+        if a == b:
+            return a
     if r[0] == "field":
         return r[2]
     if r[0] == "call":
